@@ -185,6 +185,8 @@ class Lexer:
         pos = 0
         line = 1
         column = 0
+        tline = 1
+        tcolumn = 0
         updatepos = True
         while pos < len(self.script):
             ch = self.script[pos]
@@ -198,6 +200,9 @@ class Lexer:
             updatepos = True
 
             if state == 0:  # Eat whitespace
+                # a token starting here is positioned at its first character
+                tline = line
+                tcolumn = column
                 if ch == "#":
                     state = 9
                 elif ch in "+-*%":
@@ -227,19 +232,19 @@ class Lexer:
             elif state == 1:  # normal token
                 if ch in "()+-*/%[]<>=,;!\"' \t\r\n#":
                     if token == "TRUE":
-                        here = SourcePos(fname, line, column - len("TRUE"))
+                        here = SourcePos(fname, tline, tcolumn)
                         self.tokens.append(Token("TRUE", "boolean", here))
                         token = ""
                     elif token == "FALSE":
-                        here = SourcePos(fname, line, column - len("TRUE"))
+                        here = SourcePos(fname, tline, tcolumn)
                         self.tokens.append(Token("FALSE", "boolean", here))
                         token = ""
                     elif token in KEYWORDS:
-                        here = SourcePos(fname, line, column - len(token))
+                        here = SourcePos(fname, tline, tcolumn)
                         self.tokens.append(Token(token, "keyword", here))
                         token = ""
                     elif token:
-                        here = SourcePos(fname, line, column - len(token))
+                        here = SourcePos(fname, tline, tcolumn)
                         self.tokens.append(Token(token, "identifier", here))
                         token = ""
                     pos -= 1
@@ -248,7 +253,7 @@ class Lexer:
                 else:
                     token += ch
                     if token == "...":
-                        here = SourcePos(fname, line, column - len(token))
+                        here = SourcePos(fname, tline, tcolumn)
                         self.tokens.append(Token(token, "interpunction", here))
                         token = ""
                         state = 0
@@ -256,18 +261,18 @@ class Lexer:
             elif state == 2:  # <>, <=, >=, ==, <<, >>, <<<, >>>, !>, <*, *>
                 if ch == "=":
                     token += ch
-                    here = SourcePos(fname, line, column - len(token) - 1)
+                    here = SourcePos(fname, tline, tcolumn)
                     self.tokens.append(Token(token, "operator", here))
                     token = ""
                     state = 0
                 elif ch == ">" and token == "=":
                     token += ch
-                    here = SourcePos(fname, line, column - len(token) - 1)
+                    here = SourcePos(fname, tline, tcolumn)
                     self.tokens.append(Token(token, "interpunction", here))
                     token = ""
                     state = 0
                 elif ch == ">" and token == "<":
-                    here = SourcePos(fname, line, column - 1)
+                    here = SourcePos(fname, tline, tcolumn)
                     self.tokens.append(Token("<>", "operator", here))
                     token = ""
                     state = 0
@@ -279,17 +284,17 @@ class Lexer:
                     state = 21
                 elif ch == ">" and token == "!":
                     token += ch
-                    here = SourcePos(fname, line, column - len(token) - 1)
+                    here = SourcePos(fname, tline, tcolumn)
                     self.tokens.append(Token("!>", "operator", here))
                     token = ""
                     state = 0
                 elif ch == "*" and token == "<":
-                    here = SourcePos(fname, line, column - 1)
+                    here = SourcePos(fname, tline, tcolumn)
                     self.tokens.append(Token("<*", "interpunction", here))
                     token = ""
                     state = 0
                 else:
-                    here = SourcePos(fname, line, column - len(token))
+                    here = SourcePos(fname, tline, tcolumn)
                     self.tokens.append(Token(token, "operator", here))
                     token = ""
                     pos -= 1
@@ -298,17 +303,17 @@ class Lexer:
 
             elif state == 21:  # <<, >>, <<<, >>>
                 if ch == "<" and token == "<<":
-                    here = SourcePos(fname, line, column - 3)
+                    here = SourcePos(fname, tline, tcolumn)
                     self.tokens.append(Token("<<<", "interpunction", here))
                     token = ""
                     state = 0
                 elif ch == ">" and token == ">>":
-                    here = SourcePos(fname, line, column - 3)
+                    here = SourcePos(fname, tline, tcolumn)
                     self.tokens.append(Token(">>>", "interpunction", here))
                     token = ""
                     state = 0
                 else:
-                    here = SourcePos(fname, line, column - len(token))
+                    here = SourcePos(fname, tline, tcolumn)
                     self.tokens.append(Token(token, "interpunction", here))
                     token = ""
                     pos -= 1
@@ -317,7 +322,7 @@ class Lexer:
 
             elif state == 3:  # double quotes
                 if ch == '"':
-                    here = SourcePos(fname, line, column - len(token) - 2 + 1)
+                    here = SourcePos(fname, tline, tcolumn)
                     self.tokens.append(Token(token, "string", here))
                     token = ""
                     state = 0
@@ -354,7 +359,7 @@ class Lexer:
 
             elif state == 4:  # single quote
                 if ch == "'":
-                    here = SourcePos(fname, line, column - len(token) - 2 + 1)
+                    here = SourcePos(fname, tline, tcolumn)
                     self.tokens.append(Token(token, "string", here))
                     token = ""
                     state = 0
@@ -394,11 +399,11 @@ class Lexer:
                     token += "//"
                     state = 6
                 elif ch == "=":
-                    here = SourcePos(fname, line, column - 1)
+                    here = SourcePos(fname, tline, tcolumn)
                     self.tokens.append(Token("/=", "operator", here))
                     state = 0
                 else:
-                    here = SourcePos(fname, line, column - 1)
+                    here = SourcePos(fname, tline, tcolumn)
                     self.tokens.append(Token("/", "operator", here))
                     pos -= 1
                     updatepos = False
@@ -407,7 +412,7 @@ class Lexer:
             elif state == 6:  # pattern
                 token += ch
                 if token.endswith("//"):
-                    here = SourcePos(fname, line, column - len(token) - 4 + 1)
+                    here = SourcePos(fname, tline, tcolumn)
                     self.tokens.append(Token(token, "pattern", here))
                     token = ""
                     state = 0
@@ -419,7 +424,7 @@ class Lexer:
                 elif ch in "0123456789_":
                     token += ch
                 elif ch in "()[]<>=! \t\n\r+-*/%,;#":
-                    here = SourcePos(fname, line, column - len(token))
+                    here = SourcePos(fname, tline, tcolumn)
                     token = token.replace("_", "")
                     self.tokens.append(Token(token, "int", here))
                     token = ""
@@ -447,7 +452,7 @@ class Lexer:
                 if ch in "0123456789abcdefABCDEF_":
                     token += ch
                 elif ch in "()[]<>=! \t\n\r+-*/%,;#":
-                    here = SourcePos(fname, line, column - len(token))
+                    here = SourcePos(fname, tline, tcolumn)
                     token = str(int(token.replace("_", ""), 16))
                     self.tokens.append(Token(token, "int", here))
                     token = ""
@@ -462,7 +467,7 @@ class Lexer:
                 if ch in "01_":
                     token += ch
                 elif ch in "()[]<>=! \t\n\r+-*/%,;#":
-                    here = SourcePos(fname, line, column - len(token))
+                    here = SourcePos(fname, tline, tcolumn)
                     self.tokens.append(
                         Token(str(int(token.replace("_", ""), 2)), "int", here)
                     )
@@ -478,7 +483,7 @@ class Lexer:
                 if ch in "0123456789_":
                     token += ch
                 elif ch in "()[]<>=! \t\n\r+-*/%,;#":
-                    here = SourcePos(fname, line, column - len(token))
+                    here = SourcePos(fname, tline, tcolumn)
                     token = token.replace("_", "")
                     self.tokens.append(Token(token, "decimal", here))
                     token = ""
@@ -496,22 +501,22 @@ class Lexer:
             elif state == 10:  # potentially composite assign or -> or *>
                 if ch == "=":
                     token += ch
-                    here = SourcePos(fname, line, column)
+                    here = SourcePos(fname, tline, tcolumn)
                     self.tokens.append(Token(token, "operator", here))
                     token = ""
                     state = 0
                 elif token == "-" and ch == ">":
-                    here = SourcePos(fname, line, column)
+                    here = SourcePos(fname, tline, tcolumn)
                     self.tokens.append(Token("->", "operator", here))
                     token = ""
                     state = 0
                 elif token == "*" and ch == ">":
-                    here = SourcePos(fname, line, column)
+                    here = SourcePos(fname, tline, tcolumn)
                     self.tokens.append(Token("*>", "interpunction", here))
                     token = ""
                     state = 0
                 else:
-                    here = SourcePos(fname, line, column)
+                    here = SourcePos(fname, tline, tcolumn)
                     self.tokens.append(Token(token, "operator", here))
                     token = ""
                     pos -= 1
